@@ -190,9 +190,85 @@ def run_for(pid, ctx=None, workers=6):
     return res
 
 
+def seeded_main(ids):
+    """every stored seeded change must be reported by the check of the property it breaks (scratch copies; /repo untouched)"""
+    import glob
+    import json
+    jobs = []
+    for mf in sorted(glob.glob(os.path.join(VERIF, "seeded", "*", "meta.json"))):
+        m = json.load(open(mf))
+        if ids and m["id"] not in ids:
+            continue
+        jobs.append((m["id"], m["breaks_property"], os.path.join(os.path.dirname(mf), "patch.diff")))
+    bad = 0
+    with cf.ThreadPoolExecutor(max_workers=6) as ex:
+        futs = {ex.submit(run_patch, p, pid): (i, pid) for i, pid, p in jobs}
+        for f in cf.as_completed(futs):
+            i, pid = futs[f]
+            st, info = f.result()
+            if st != "alarm":
+                bad += 1
+                print(f"SEEDED-MISS: {i} (breaks {pid}): {st} {info}")
+    print(f"seeded: {len(jobs)} changes, {bad} not reported by their target check")
+    return 1 if bad else 0
+
+
+def run_patch_multi(patch, pids):
+    """one scratch copy, several checks: {pid: (status, rules)}"""
+    d = tempfile.mkdtemp(prefix="vmself-")
+    try:
+        repo = os.path.join(d, "repo")
+        shutil.copytree(facts.REPO, repo, ignore=shutil.ignore_patterns("target", ".git"))
+        r = subprocess.run(["patch", "-p1", "-s", "-i", patch], cwd=repo, capture_output=True, text=True)
+        if r.returncode != 0:
+            return {pid: ("skipped", "patch no longer applies") for pid in pids}
+        env = dict(os.environ, VERIF_REPO=repo, VERIF_OUT=os.path.join(d, "out"), VERIF_TIER="quick")
+        out = {}
+        for pid in pids:
+            r = subprocess.run([os.path.join(VERIF, "check"), pid, "--tier", "quick"], env=env, cwd=VERIF, stdout=subprocess.PIPE, stderr=subprocess.STDOUT, text=True)
+            if "FATAL: facts generation failed" in r.stdout:
+                out[pid] = ("skipped", "does not compile")
+                continue
+            rules = sorted({l.strip().split(" ")[1] for l in r.stdout.splitlines() if l.strip().startswith("rule ")})
+            out[pid] = (("alarm" if r.returncode == 1 else "silent"), ",".join(rules))
+        return out
+    finally:
+        shutil.rmtree(d, ignore_errors=True)
+
+
+def agent_refactors_main(ids):
+    """every stored sub-agent refactor (behaviour-preserving) must leave ALL the checks listed in its meta silent"""
+    import glob
+    import json
+    jobs = []
+    for mf in sorted(glob.glob(os.path.join(VERIF, "refactors", "*", "meta.json"))):
+        m = json.load(open(mf))
+        if ids and m["id"] not in ids:
+            continue
+        jobs.append((m["id"], m["checks"], os.path.join(os.path.dirname(mf), "patch.diff")))
+    bad = pairs = 0
+    with cf.ThreadPoolExecutor(max_workers=4) as ex:
+        futs = {ex.submit(run_patch_multi, p, pids): i for i, pids, p in jobs}
+        for f in cf.as_completed(futs):
+            i = futs[f]
+            for pid, (st, info) in sorted(f.result().items()):
+                pairs += 1
+                if st == "alarm":
+                    bad += 1
+                    print(f"FALSE-ALARM: {pid} on behaviour-preserving refactor {i}: {info}")
+                elif st == "skipped":
+                    print(f"   skipped {i} [{pid}]: {info}")
+    print(f"agent refactors: {len(jobs)} refactors, {pairs} (refactor, check) pairs, {bad} false alarm(s)")
+    return 1 if bad else 0
+
+
 def main(argv):
     if argv and argv[0] in ("--REFACTORS", "--refactors"):
         return refactors_main([a for a in argv[1:]])
+    if argv and argv[0] == "--seeded":
+        return seeded_main(argv[1:])
+    if argv and argv[0] == "--agent-refactors":
+        return agent_refactors_main(argv[1:])
     pids = argv or sorted({p for m in load_mutants() for p in m["props"]})
     bad = 0
     for pid in pids:
